@@ -1035,6 +1035,19 @@ func generate(rng *hx.Rand, thorough bool, jobs chan<- func() string) {
 			}
 			c.pss = append(c.pss, ps)
 		}
+		// mostly valid: for most tags, an element of that name somewhere
+		for _, t := range tags {
+			if t.none == "" && rng.Chance(3, 4) {
+				if parts := strings.Split(t.tag, " "); len(parts) == 2 {
+					id++
+					ps := &c.pss[rng.Intn(len(c.pss))]
+					r := &rspec{tok: xml.StartElement{Name: xml.Name{Space: parts[0], Local: parts[1]},
+						Attr: []xml.Attr{{Name: xml.Name{Local: "id"}, Value: fmt.Sprintf("i%d", id)}}}}
+					at := rng.Intn(len(ps.raws) + 1)
+					ps.raws = append(ps.raws[:at], append([]*rspec{r}, ps.raws[at:]...)...)
+				}
+			}
+		}
 		jobs <- func() string { return propmLine(tags, c) }
 	}
 
